@@ -250,10 +250,11 @@ def run_inproc_cases(impl, cases, nproc=NPROC, repeat=1):
         res = []
         for o in outs:
             j = json.loads(o)
+            err = bytes.fromhex(j.get("err", "")).decode("utf-8", "surrogateescape")
             if j.get("panic"): status = "crash:panic"
-            elif j.get("err"): status = "fail:" + classify_error(j["err"])
+            elif err: status = "fail:" + classify_error(err)
             else: status = "ok"
-            res.append(dict(status=status, stdout=bytes.fromhex(j.get("out", "")), raw_err=j.get("err", ""), panic=j.get("panic", "")))
+            res.append(dict(status=status, stdout=bytes.fromhex(j.get("out", "")), raw_err=err, panic=j.get("panic", "")))
         return res
     finally:
         shutil.rmtree(work, ignore_errors=True)
